@@ -240,11 +240,17 @@ theorem trifill_sorted (a b c : List K) (m : Nat) (hm : 1 < m)
   have hp := trifill_parts a b c m ha hb hc
   simp only at hp
   obtain ⟨hT, hM, hB, -, hl1, hl2, h1, h2, hsplit⟩ := hp
-  have hyT : -(1 / 2) ≤ nth1 (sort3 a b c).1 := hy _ (sort3_mem a b c _ (by simp))
-  have hyM : -(1 / 2) ≤ nth1 (sort3 a b c).2.1 := hy _ (sort3_mem a b c _ (by simp))
+  set T := (sort3 a b c).1 with hTdef
+  set M := (sort3 a b c).2.1 with hMdef
+  set B := (sort3 a b c).2.2 with hBdef
+  have hyT : -(1 / 2) ≤ nth1 T := hy _ (sort3_mem a b c _ (by simp [T]))
+  have hyM : -(1 / 2) ≤ nth1 M := hy _ (sort3_mem a b c _ (by simp [M]))
+  set lr := (if nth0 M < nth0 (lerpL T B ((nth1 M - nth1 T) / (nth1 B - nth1 T)))
+    then (M, lerpL T B ((nth1 M - nth1 T) / (nth1 B - nth1 T)))
+    else (lerpL T B ((nth1 M - nth1 T) / (nth1 B - nth1 T)), M)) with hlrdef
   rw [hsplit]
-  obtain ⟨s1, f1⟩ := scan_sorted _ _ _ _ _ _ (by rw [hT, hl1]) (by omega) (by omega) (by omega) hyT
-  obtain ⟨s2, f2⟩ := scan_sorted _ _ _ _ _ _ (by rw [hl1, hB]) (by omega) (by omega) (by omega) hyM
+  obtain ⟨s1, f1⟩ := scan_sorted (nth1 T) (nth1 M) T lr.1 T lr.2 (by rw [hT, hl1]) (by omega) (by omega) (by omega) hyT
+  obtain ⟨s2, f2⟩ := scan_sorted (nth1 M) (nth1 B) lr.1 B lr.2 B (by rw [hl1, hB]) (by omega) (by omega) (by omega) hyM
   constructor
   · rw [List.pairwise_append]
     refine ⟨s1, s2, ?_⟩
@@ -256,6 +262,11 @@ theorem trifill_sorted (a b c : List K) (m : Nat) (hm : 1 < m)
     rcases List.mem_append.mp hrow with h | h
     · exact (f1 row h).2.2
     · exact (f2 row h).2.2
+
+/-- A scan between equal heights emits no row. -/
+theorem scan_nil_of_eq (y0 y1 : K) (l0 l1 r0 r1 : List K) (h : y0 = y1) : scan y0 y1 l0 l1 r0 r1 = [] := by
+  rw [← List.length_eq_zero_iff, scan_length, h]
+  simp
 
 theorem lerp_ge (lo a b t : K) (ha : lo ≤ a) (hb : lo ≤ b) (h0 : 0 ≤ t) (h1 : t ≤ 1) : lo ≤ lerp a b t := by
   unfold lerp
@@ -304,21 +315,13 @@ theorem trifill_frag_pixel (a b c : List K) (m : Nat) (hm : 1 < m)
     · exact scan_frag_pixel (nth1 T) (nth1 M) T lr.1 T lr.2 m hm hlt hT hl1 hT hl2 rfl rfl y1 y2
         (by rintro ⟨-, h'⟩; exact hw h') hyT hxT hxl row h
     · exfalso
-      have hlen := scan_length (nth1 T) (nth1 M) T lr.1 T lr.2
-      rw [heq] at hlen
-      simp only [sub_self, Int.toNat_zero] at hlen
-      rw [List.length_eq_zero_iff] at hlen
-      rw [hlen] at h
+      rw [scan_nil_of_eq _ _ _ _ _ _ heq] at h
       simp at h
   · rcases h2.lt_or_eq with hlt | heq
     · exact scan_frag_pixel (nth1 M) (nth1 B) lr.1 B lr.2 B m hm hlt hl1 hB hl2 hB y1 y2 rfl rfl
         (by rintro ⟨h', -⟩; exact hw h') hyM hxl hxB row h
     · exfalso
-      have hlen := scan_length (nth1 M) (nth1 B) lr.1 B lr.2 B
-      rw [heq] at hlen
-      simp only [sub_self, Int.toNat_zero] at hlen
-      rw [List.length_eq_zero_iff] at hlen
-      rw [hlen] at h
+      rw [scan_nil_of_eq _ _ _ _ _ _ heq] at h
       simp at h
 
 end Retro.Props.C01
